@@ -237,12 +237,15 @@ def _r5(ctx):
             cands.append((v, lp.line))
     if not cands:
         # the dispatch may sit in a helper that could not be put back: the lists handed to helpers of the class
-        for f in fl.facts:
-            if f.kind == "call" and f.value is not None and f.value[0] == "meth":
-                for a in f.value[3]:
-                    v = walked(a)
-                    if by_mode(v) and v not in [c for c, _ in cands]:
-                        cands.append((v, f.line))
+        # (written as a statement or inside any expression: `groups = self._group(self._keys(mode))`)
+        vals = [(f.value, f.line) for f in fl.facts if f.value is not None] + [(a[0], a[3]) for al in fl.assigns.values() for a in al]
+        for val, line_ in vals:
+            for x in walk(val):
+                if isinstance(x, tuple) and len(x) == 5 and x[0] == "meth" and x[1] in (("param", "self"), ("param", "cls")):
+                    for a in x[3]:
+                        v = walked(a)
+                        if by_mode(v) and v not in [c for c, _ in cands]:
+                            cands.append((v, line_))
     W = (NF, fn.lineno)
     if not cands:
         ctx.unrec("R5", "default-mode comparison", W, "cannot find the per-mode list of compared objects (a sequence chosen by tests on `mode` that a loop walks)")
